@@ -231,7 +231,7 @@ def extra_determinism(chk, seed):
     for hs in ("1", "2", "3"):
         env = dict(os.environ, PYTHONHASHSEED=hs)
         p = subprocess.run([sys.executable, "-B", child, str(seed % 100000)], env=env, stdout=subprocess.PIPE,
-                           stderr=subprocess.PIPE, text=True, timeout=600)
+                           stderr=subprocess.PIPE, text=True, timeout=1800)
         if p.returncode != 0:
             raise common.MachineryError("c14_child failed: " + p.stderr[-1500:])
         outs[hs] = [l.split()[1:] for l in p.stdout.splitlines() if l.startswith("RESULT")]
